@@ -177,4 +177,73 @@ static inline std::string render_xta(const MModel& m)
     s += m.system + "\n";
     return s;
 }
+
+// ---------------------------------------------------------------- writer side: element tree of what the XMLWriter produced
+struct WEl { std::string name, text; std::vector<std::pair<std::string, std::string>> attrs; std::vector<WEl> kids;
+    const std::string* attr(const char* n) const { for (auto& a : attrs) if (a.first == n) return &a.second; return nullptr; }
+    std::vector<const WEl*> children(const char* n) const { std::vector<const WEl*> r; for (auto& k : kids) if (k.name == n) r.push_back(&k); return r; } };
+int32_t write_XML_file(const char* filename, UTAP::Document* doc);
+#ifndef VF_NATIVE
+// writer model (IR build only): every xmlTextWriter* call appends to a tree under construction and returns success
+static WEl vf_w_root; static std::vector<WEl*> vf_w_stack; static bool vf_w_started = false, vf_w_ended = false; static int vf_w_unbalanced = 0;
+static void* vf_xml_malloc(size_t n) { return malloc(n); }
+static void* vf_xml_realloc(void* p, size_t n) { return realloc(p, n); }
+xmlMallocFunc xmlMalloc = vf_xml_malloc;
+xmlReallocFunc xmlRealloc = vf_xml_realloc;
+static int vf_identity_input(unsigned char* out, int* outlen, const unsigned char* in, int* inlen)
+{ int n = *inlen < *outlen ? *inlen : *outlen; memcpy(out, in, n); *outlen = n; *inlen = n; return n; }
+static xmlCharEncodingHandler vf_utf8_handler = {(char*)"UTF-8", vf_identity_input, nullptr};
+extern "C" {
+xmlCharEncodingHandlerPtr xmlFindCharEncodingHandler(const char*) { return &vf_utf8_handler; }
+xmlTextWriterPtr xmlNewTextWriterFilename(const char*, int) { vf_w_root = WEl{}; vf_w_root.name = "#document"; vf_w_stack.clear(); vf_w_stack.push_back(&vf_w_root); vf_w_started = vf_w_ended = false; vf_w_unbalanced = 0; return (xmlTextWriterPtr)&vf_w_root; }
+void xmlFreeTextWriter(xmlTextWriterPtr) {}
+int xmlTextWriterStartDocument(xmlTextWriterPtr, const char*, const char*, const char*) { vf_w_started = true; return 0; }
+int xmlTextWriterEndDocument(xmlTextWriterPtr) { vf_w_ended = true; vf_w_unbalanced = (int)vf_w_stack.size() - 1; return 0; }
+int xmlTextWriterWriteDTD(xmlTextWriterPtr, const xmlChar*, const xmlChar*, const xmlChar*, const xmlChar*) { return 0; }
+int xmlTextWriterSetIndent(xmlTextWriterPtr, int) { return 0; }
+int xmlTextWriterSetIndentString(xmlTextWriterPtr, const xmlChar*) { return 0; }
+int xmlTextWriterStartElement(xmlTextWriterPtr, const xmlChar* n) { vf_w_stack.back()->kids.push_back(WEl{}); WEl* e = &vf_w_stack.back()->kids.back(); e->name = (const char*)n; vf_w_stack.push_back(e); return 0; }
+int xmlTextWriterEndElement(xmlTextWriterPtr) { if (vf_w_stack.size() <= 1) return -1; vf_w_stack.pop_back(); return 0; }
+int xmlTextWriterWriteAttribute(xmlTextWriterPtr, const xmlChar* n, const xmlChar* v) { if (!vf_w_stack.back()->kids.empty() || !vf_w_stack.back()->text.empty()) return -1; vf_w_stack.back()->attrs.push_back({(const char*)n, (const char*)v}); return 0; }
+int xmlTextWriterWriteString(xmlTextWriterPtr, const xmlChar* t) { vf_w_stack.back()->text += (const char*)t; return 0; }
+int xmlTextWriterWriteElement(xmlTextWriterPtr, const xmlChar* n, const xmlChar* t) { WEl e; e.name = (const char*)n; e.text = t ? (const char*)t : ""; vf_w_stack.back()->kids.push_back(e); return 0; }
+}
+static inline bool write_xml(Document& doc, WEl& out, std::string& problem)
+{
+    write_XML_file("/nonexistent/vf.xml", &doc);
+    if (!vf_w_started || !vf_w_ended) { problem = "document not started/ended"; return false; }
+    if (vf_w_unbalanced != 0) { problem = "unbalanced elements at end of document"; return false; }
+    if (vf_w_root.kids.size() != 1) { problem = "not exactly one root element"; return false; }
+    out = vf_w_root.kids[0];
+    return true;
+}
+#else
+#include <libxml/parser.h>
+#include <libxml/tree.h>
+#include <unistd.h>
+static inline void vf_w_convert(xmlNodePtr n, WEl& e)
+{
+    e.name = (const char*)n->name;
+    for (xmlAttrPtr a = n->properties; a; a = a->next) { xmlChar* v = xmlGetProp(n, a->name); e.attrs.push_back({(const char*)a->name, v ? (const char*)v : ""}); xmlFree(v); }
+    for (xmlNodePtr c = n->children; c; c = c->next) {
+        if (c->type == XML_ELEMENT_NODE) { e.kids.push_back(WEl{}); vf_w_convert(c, e.kids.back()); }
+        else if (c->type == XML_TEXT_NODE || c->type == XML_CDATA_SECTION_NODE) { std::string t = (const char*)c->content; bool blank = true; for (char ch : t) if (!isspace((unsigned char)ch)) blank = false; if (!blank || (!n->children->next)) e.text += t; }
+    }
+}
+// native: the real writer into a temporary file, re-read with libxml2's independent tree parser (this is where well-formedness of the bytes is checked)
+static inline bool write_xml(Document& doc, WEl& out, std::string& problem)
+{
+    char fn[] = "/tmp/vf_c20_XXXXXX";
+    int fd = mkstemp(fn); if (fd >= 0) close(fd);
+    write_XML_file(fn, &doc);
+    xmlDocPtr d = xmlReadFile(fn, nullptr, XML_PARSE_NONET | XML_PARSE_NOERROR | XML_PARSE_NOWARNING);
+    unlink(fn);
+    if (!d) { problem = "output is not well-formed XML"; return false; }
+    xmlNodePtr r = xmlDocGetRootElement(d);
+    if (!r) { problem = "no root element"; xmlFreeDoc(d); return false; }
+    vf_w_convert(r, out);
+    xmlFreeDoc(d);
+    return true;
+}
+#endif
 #endif
